@@ -267,10 +267,21 @@ def verify_contract(c: Contract, registry: Dict[str, Contract], timeout_ms=core.
         out["status"] = "unsupported"
         out["unsupported"] = str(e)
         out["trace"] = traceback.format_exc()[-1500:]
+    except z3.Z3Exception as e:  # an ill-sorted term: the code left the encodable subset
+        out["status"] = "unsupported"
+        out["unsupported"] = f"encoding error (Z3Exception: {e})"
+        out["trace"] = traceback.format_exc()[-1500:]
     except Exception as e:  # checker bug: never a violation
         out["status"] = "checker-error"
         out["unsupported"] = f"{type(e).__name__}: {e}"
         out["trace"] = traceback.format_exc()[-3000:]
+    if out["status"] == "unsupported" and hasattr(c, "bounded_standin"):
+        # DESIGN 6.2: the function left the subset -> same contract checked at run time on the real function
+        try:
+            res = c.bounded_standin(seed=int(__import__("os").environ.get("VERIF_SEED", "0")), tier=__import__("os").environ.get("VERIF_TIER", "quick"))
+            out["bounded_standin"] = res
+        except Exception as e:
+            out["bounded_standin"] = {"error": f"{type(e).__name__}: {e}"}
     out["stats"] = dict(core.STATS)
     out["wall_s"] = time.time() - t0
     return out
@@ -297,7 +308,7 @@ def check_frame(c: Contract, I: Interp, p, args):
         if not o.pre:
             continue
         for a in sorted(set(o.writes)):
-            if (id(o), a) in allowed:
+            if (id(o), a) in allowed or a.startswith("__"):
                 continue
             any_write = True
             v0 = o.attrs0.get(a, MISSING)
